@@ -106,12 +106,105 @@ WORDS = ['struct', 'union', 'enum', 'const', 'typedef', 'bytes', 'u8', 'u32', 'i
 
 
 @st.composite
+def refgraphs(draw):
+    """A random *functional graph* of definitions: every name is defined by one other generated name (or by itself, or
+    by a terminal), so direct self references, cycles of any length and chains that lead into a cycle (U -> T -> T) all
+    occur; then definitions that use those names where a type, an array size, a constant, an enumerator value or a
+    discriminator is expected, bare or inside an expression.  -> (defs, users)"""
+    n = draw(st.integers(1, 5))
+    names = ['G%d' % i for i in range(n)]
+    defs = []
+    for i, nm in enumerate(names):
+        kind = draw(st.sampled_from(['typedef', 'typedef', 'const', 'const', 'enumerator']))
+        tgt = draw(st.sampled_from(names + ['#'])) if draw(st.integers(0, 5)) else '#'
+        wrap = draw(st.sampled_from(['%s', '%s', '%s*2', '%s + 1', '(%s)', '1 + %s', '-%s'])) if kind != 'typedef' else '%s'
+        defs.append((kind, nm, tgt, wrap))
+    users = []
+    for _ in range(draw(st.integers(1, 3))):
+        how = draw(st.sampled_from(['member', 'size', 'size_expr', 'const', 'const_expr', 'enumerator', 'disc', 'opt',
+                                    'dynarr', 'arm']))
+        users.append((how, draw(st.sampled_from(names))))
+    if draw(st.booleans()):
+        defs = draw(st.permutations(defs))
+    return list(defs), users
+
+
+def refgraph_isar(defs, users):
+    out = []
+    for kind, nm, tgt, wrap in defs:
+        if kind == 'typedef':
+            out.append('<typedef name="%s" type="%s"/>' % (nm, tgt) if tgt != '#' else
+                       '<typedef name="%s" primitiveType="32 bit integer unsigned"/>' % nm)
+        elif kind == 'const':
+            out.append('<constant name="%s" value="%s"/>' % (nm, wrap % tgt if tgt != '#' else '3'))
+        else:
+            out.append('<enum name="E%s"><enum-member name="%s" value="%s"/></enum>' % (
+                nm, nm, wrap % tgt if tgt != '#' else '2'))
+    for i, (how, nm) in enumerate(users):
+        if how == 'member':
+            out.append('<struct name="W%d"><member name="a" type="%s"/></struct>' % (i, nm))
+        elif how == 'opt':
+            out.append('<struct name="W%d"><member name="a" type="%s" optional="true"/></struct>' % (i, nm))
+        elif how == 'dynarr':
+            out.append('<struct name="W%d"><member name="a" type="%s"><dimension isVariableSize="true"/></member>'
+                       '</struct>' % (i, nm))
+        elif how == 'size':
+            out.append('<struct name="W%d"><member name="a" type="u8"><dimension size="%s"/></member></struct>' % (i, nm))
+        elif how == 'size_expr':
+            out.append('<struct name="W%d"><member name="a" type="u8"><dimension size="%s*2"/></member></struct>' % (i, nm))
+        elif how == 'const':
+            out.append('<constant name="W%d" value="%s"/>' % (i, nm))
+        elif how == 'const_expr':
+            out.append('<constant name="W%d" value="%s + 1"/>' % (i, nm))
+        elif how == 'enumerator':
+            out.append('<enum name="W%d"><enum-member name="W%d_a" value="%s"/></enum>' % (i, i, nm))
+        elif how == 'disc':
+            out.append('<union name="W%d"><member name="a" type="u8" discriminatorValue="%s"/></union>' % (i, nm))
+        else:
+            out.append('<union name="W%d"><member name="a" type="%s" discriminatorValue="1"/></union>' % (i, nm))
+    return out
+
+
+def refgraph_prophy(defs, users):
+    out = []
+    for kind, nm, tgt, wrap in defs:
+        if kind == 'typedef':
+            out.append('typedef %s %s;' % (tgt if tgt != '#' else 'u32', nm))
+        elif kind == 'const':
+            out.append('const %s = %s;' % (nm, wrap % tgt if tgt != '#' else '3'))
+        else:
+            out.append('enum E%s\n{\n    %s = %s\n};' % (nm, nm, wrap % tgt if tgt != '#' else '2'))
+    for i, (how, nm) in enumerate(users):
+        if how == 'member':
+            out.append('struct W%d\n{\n    %s a;\n};' % (i, nm))
+        elif how == 'opt':
+            out.append('struct W%d\n{\n    %s* a;\n};' % (i, nm))
+        elif how == 'dynarr':
+            out.append('struct W%d\n{\n    %s a<>;\n};' % (i, nm))
+        elif how == 'size':
+            out.append('struct W%d\n{\n    u8 a[%s];\n};' % (i, nm))
+        elif how == 'size_expr':
+            out.append('struct W%d\n{\n    u8 a[%s*2];\n};' % (i, nm))
+        elif how == 'const':
+            out.append('const W%d = %s;' % (i, nm))
+        elif how == 'const_expr':
+            out.append('const W%d = %s + 1;' % (i, nm))
+        elif how == 'enumerator':
+            out.append('enum W%d\n{\n    W%d_a = %s\n};' % (i, i, nm))
+        elif how == 'disc':
+            out.append('union W%d\n{\n    %s: u8 a;\n};' % (i, nm))
+        else:
+            out.append('union W%d\n{\n    1: %s a;\n};' % (i, nm))
+    return '\n'.join(out) + '\n'
+
+
+@st.composite
 def prophy_inputs(draw):
     """-> (label, {relative path: text}, main file)"""
     schema = draw(gen.schemas(gen.GenOpts(max_decls=4, big_sizes=False)))
     text = schema.to_prophy()
     kind = draw(st.sampled_from(['valid', 'mutant', 'mutant', 'soup', 'unicode', 'division', 'shift', 'crlf', 'self_include',
-                                 'mutual_include', 'missing_include', 'use_before_def', 'recursive']))
+                                 'mutual_include', 'missing_include', 'use_before_def', 'recursive', 'refgraph']))
     files = {}
     if kind == 'valid':
         files['m.prophy'] = text
@@ -148,6 +241,8 @@ def prophy_inputs(draw):
         files['n.prophy'] = '#include "m.prophy"\nconst NN = 1;\n'
     elif kind == 'missing_include':
         files['m.prophy'] = '#include "nothere.prophy"\n' + text
+    elif kind == 'refgraph':
+        files['m.prophy'] = refgraph_prophy(*draw(refgraphs())) + (text if draw(st.booleans()) else '')
     elif kind == 'use_before_def':
         files['m.prophy'] = 'struct A\n{\n    B b;\n};\nstruct B\n{\n    u8 x;\n};\n' + text
     else:
@@ -214,9 +309,17 @@ ISAR_FRAGMENTS = [
 def isar_inputs(draw):
     schema = draw(gen.schemas(gen.GenOpts(max_decls=4, big_sizes=False, allow_greedy=False, enum_aliases=False)))
     body = [ir.render_isar_decl(d) for d in schema.decls]
-    kind = draw(st.sampled_from(['valid', 'fragment', 'fragment', 'drop_attr', 'malformed', 'text_mutation']))
+    kind = draw(st.sampled_from(['valid', 'fragment', 'fragment', 'drop_attr', 'malformed', 'text_mutation', 'refgraph',
+                                 'refgraph']))
     if kind == 'fragment':
         frags = draw(st.lists(st.sampled_from(ISAR_FRAGMENTS), min_size=1, max_size=3))
+        pos = draw(st.integers(0, len(body)))
+        body[pos:pos] = frags
+        xml = '<x>%s</x>' % '\n'.join(body)
+    elif kind == 'refgraph':
+        frags = refgraph_isar(*draw(refgraphs()))
+        if draw(st.booleans()):
+            body = []
         pos = draw(st.integers(0, len(body)))
         body[pos:pos] = frags
         xml = '<x>%s</x>' % '\n'.join(body)
